@@ -18,18 +18,24 @@ fn localized(key: &str) -> Option<String> {
     }
 }
 
+/// the value's own display text (Display); if that panics the reference text is a marker that no result can equal,
+/// and the library call under test reports the panic itself
+fn shown(v: &Value) -> String {
+    catch(|| v.to_string()).unwrap_or_else(|_| "\u{0}<Display panicked>".to_string())
+}
+
 fn display_text(v: &Value) -> String {
     match v {
         Value::Str(s) => s.value.clone(),
         Value::Ref(r) => r.dis.clone().unwrap_or_else(|| r.value.clone()),
-        other => other.to_string(),
+        other => shown(other),
     }
 }
 
 fn plain_text(v: &Value) -> String {
     match v {
         Value::Str(s) => s.value.clone(),
-        other => other.to_string(),
+        other => shown(other),
     }
 }
 
@@ -138,10 +144,10 @@ fn lib_dis(d: &Dict, default: Option<&str>) -> String {
     dict_to_dis(d, &loc, default.map(Cow::Borrowed)).to_string()
 }
 
-const PIECES: [&str; 46] = [
+const PIECES: [&str; 47] = [
     // the display tags themselves are ordinary tags inside a pattern
     "$dis", "${disMacro}", "$disMacro", "$disKey", "${name}", "$def", "$tag", "${navName}", "$id", "$navName", "$name", "${id}",
-    "$pwr", "${pwr}", "$tempSp", "pwr",
+    "$pwr", "${pwr}", "$tempSp", "pwr", "$pinf",
     "$", "{", "}", "<", ">", "a", "b", "ab", "aB_9", "siteRef", "k", "kx", "pod::key", " ", "é", "$a", "${a}", "${ab}", "$<k>", "$<x>", "$ab", "$siteRef", "$$", "${", "$<", "x", "A", "_", "9", "😀",
 ];
 
@@ -151,7 +157,7 @@ fn gen_pattern(rng: &mut Rng) -> String {
 }
 
 fn value_of_kind(rng: &mut Rng, k: usize) -> Value {
-    match k % 12 {
+    match k % 14 {
         0 => Value::make_str("text"),
         1 => Value::make_str(""),
         2 => Value::make_ref("rid"),
@@ -163,6 +169,9 @@ fn value_of_kind(rng: &mut Rng, k: usize) -> Value {
         8 => Value::make_symbol("sym"),
         9 => Value::Null,
         10 => Value::make_list(vec![Value::make_number(1.0)]),
+        // constructible though not well-formed: a non-finite number that carries a unit
+        12 => Value::make_number_unit(f64::INFINITY, crate::bridge::unit_by_name("kilowatt").unwrap()),
+        13 => Value::make_number_unit(f64::NAN, crate::bridge::unit_by_name("celsius").unwrap()),
         _ => Value::make_str(&crate::gen::gen_string(rng)),
     }
 }
@@ -213,7 +222,7 @@ pub fn run(ctx: &mut Ctx) {
                     } else if *tag == "disKey" && (if random { rng.coin() } else { k % 3 == 0 }) {
                         Value::make_str(if (k + opt) % 2 == 0 { "kLocal" } else { "nolocal" })
                     } else {
-                        let kind = if random { rng.below(12) } else { k + bit };
+                        let kind = if random { rng.below(14) } else { k + bit };
                         value_of_kind(&mut rng, kind)
                     };
                     d.insert(tag.to_string(), v);
@@ -275,6 +284,7 @@ pub fn run(ctx: &mut Ctx) {
         ("k", Value::Marker),
         ("pwr", Value::make_number_unit(72.5, crate::bridge::unit_by_name("kilowatt").unwrap())),
         ("tempSp", Value::make_number_unit(-40.0, crate::bridge::unit_by_name("fahrenheit").unwrap())),
+        ("pinf", Value::make_number_unit(f64::INFINITY, crate::bridge::unit_by_name("kilowatt").unwrap())), // ill-formed but constructible
         ("x", Value::make_str("$a")), // substituted text is not re-scanned
     ];
     let n = ctx.n(20_000, 1_000_000);
